@@ -242,3 +242,85 @@ def explore(make_solver_base, body, max_paths=5000):
             stats.solver_s += m.stats.solver_s
         work.extend(m.pending)
     return stats
+
+
+class SymReal:
+    """A symbolic Python float (registered as numbers.Real).  Comparisons build terms and fork;
+    ``float()`` concretises by a deterministic value fork over the candidate list extended with
+    every constant this value has been compared with on the current path."""
+
+    def __init__(self, t, candidates=(0, 1, -1, 2.5, 0.5)):
+        from fractions import Fraction
+
+        self.t = t
+        self.candidates = [Fraction(c) for c in candidates]
+
+    def _other(self, o):
+        from fractions import Fraction
+
+        if isinstance(o, SymReal):
+            return o.t
+        if isinstance(o, bool):
+            o = int(o)
+        if isinstance(o, (int, float)):
+            f = Fraction(o)
+            for c in (f, f + 1, f - 1):
+                if c not in self.candidates:
+                    self.candidates.append(c)
+            return z3.RealVal(str(f))
+        return None
+
+    def _cmp(self, o, op):
+        t = self._other(o)
+        if t is None:
+            return NotImplemented
+        r = simp_bool(op(self.t, t))
+        return r if isinstance(r, bool) else SymBool(r)
+
+    def __eq__(self, o):
+        r = self._cmp(o, lambda a, b: a == b)
+        return False if r is NotImplemented else r
+
+    def __ne__(self, o):
+        r = self._cmp(o, lambda a, b: a != b)
+        return True if r is NotImplemented else r
+
+    def __lt__(self, o):
+        return self._cmp(o, lambda a, b: a < b)
+
+    def __le__(self, o):
+        return self._cmp(o, lambda a, b: a <= b)
+
+    def __gt__(self, o):
+        return self._cmp(o, lambda a, b: a > b)
+
+    def __ge__(self, o):
+        return self._cmp(o, lambda a, b: a >= b)
+
+    def __hash__(self):
+        return hash(self.__float__())
+
+    def __float__(self):
+        m = engine()
+        for c in list(self.candidates):
+            if m.decide(self.t == z3.RealVal(str(c))):
+                self.chosen = float(c)
+                return float(c)
+        raise Infeasible()
+
+    def __bool__(self):
+        return bool(self != 0)
+
+    def __neg__(self):
+        return SymReal(-self.t, [-c for c in self.candidates])
+
+    def __format__(self, spec):
+        return "<sym>"
+
+    def __repr__(self):
+        return "<sym real>"
+
+
+import numbers as _numbers  # noqa: E402
+
+_numbers.Real.register(SymReal)
